@@ -45,6 +45,7 @@ def run_cases(P, streams, workdir, have_model):
 def analyse(P, cases, index, impl, model):
     """returns dict with oracle failures, known hits, disagreements, histograms"""
     fails, known, disagree, runner = [], {}, [], []
+    model_timeout = []
     hist = {}
     nontrivial = set()
     for i, c in enumerate(cases):
@@ -70,7 +71,11 @@ def analyse(P, cases, index, impl, model):
             else:
                 fails.append((i, o))
         if ml is not None:
-            if ml.startswith("RUNNER-FAIL") or ml.startswith("BAD-CASE") or ml.startswith("BUILD-ERR"):
+            if ml.startswith("RUNNER-FAIL rc=124"):
+                # the MODEL runner ran out of time (a busy machine): no comparison for this case -- the implementation's
+                # line has been judged by the oracle above; counted in the evidence, not an alarm
+                model_timeout.append(i)
+            elif ml.startswith("RUNNER-FAIL") or ml.startswith("BAD-CASE") or ml.startswith("BUILD-ERR"):
                 runner.append((i, "model: " + ml))
             elif not P.agree(c, il, ml):
                 if not P.known_disagreement(c, il, ml):
@@ -82,7 +87,7 @@ def analyse(P, cases, index, impl, model):
         else:
             fails.append((i, o))
     return {"fails": fails, "known": known, "disagree": disagree, "runner": runner, "hist": hist,
-            "nontrivial": len(nontrivial)}
+            "nontrivial": len(nontrivial), "model_timeout": len(model_timeout)}
 
 
 def smallest(idxs, cases):
@@ -256,7 +261,8 @@ def main():
             "evaluations": len(cases), "distinct_nontrivial": res["nontrivial"],
             "rule": P.rule(),
             "streams": res["hist"],
-            "traces_validated_against_impl": sum(1 for m in model if m is not None),
+            "traces_validated_against_impl": sum(1 for m in model if m is not None) - res.get("model_timeout", 0),
+            "cases_without_model_output_because_the_model_runner_ran_out_of_time": res.get("model_timeout", 0),
             "disagreements": len(res["disagree"]),
             "known_finding_hits": {k: len(v) for k, v in res["known"].items()},
             "samples": samples[:12],
